@@ -312,3 +312,87 @@ func genM(r *hlib.Rand, nCorpora int, emit func(string)) {
 		}
 	}
 }
+
+// ------------------------------------------------------------------------------------------------ heap disjunctions under a must
+//
+// `dsearch` lines (judged by the dhit oracle: parts = every matching clause exactly once with its statistics, plain ==
+// explained, hit set) whose should side is a disjunction of MORE than searcher.DisjunctionHeapTakeover = 10 searchers — 11-16
+// should term clauses, or a prefix / wildcard clause expanding to 11+ dictionary terms — under a must clause. The boolean
+// searcher moves that disjunction with Advance; the must term is missing from some documents of every segment, so Advance
+// has to step over pending candidates.
+
+var hVocab = []string{"cab", "cad", "cam", "can", "cap", "car", "cat", "caw", "cay", "cob", "cod", "cog", "con", "cot", "cow", "cub", "cup", "cut",
+	"act", "ant", "bat", "bee", "dog", "elk"}
+
+func genHCorpus(r *hlib.Rand, must string) string {
+	nb := r.Range(3, 5)
+	var batches []string
+	id := 0
+	for bi := 0; bi < nb; bi++ {
+		nd := r.Range(3, 6)
+		var es []string
+		for i := 0; i < nd; i++ {
+			l := r.Range(1, 7)
+			if r.Chance(10) {
+				l = len(hVocab) // a document that matches (almost) every clause
+			}
+			ws := make([]string, 0, l+1)
+			for j := 0; j < l; j++ {
+				ws = append(ws, hVocab[r.Intn(len(hVocab))])
+			}
+			// the must word: in the 2nd document of every batch, never in the 1st (a gap at the start of every segment), random otherwise
+			if i == 1 || (i > 1 && r.Chance(45)) {
+				ws = append(ws, must)
+			}
+			es = append(es, fmt.Sprintf("h%d:%s:-", id, strings.Join(ws, ",")))
+			id++
+		}
+		batches = append(batches, strings.Join(es, ";"))
+	}
+	if r.Chance(25) {
+		var es []string
+		for i := 0; i < id; i++ {
+			if r.Chance(15) {
+				es = append(es, fmt.Sprintf("!h%d", i))
+			}
+		}
+		if len(es) > 0 {
+			batches = append(batches, strings.Join(es, ";"))
+		}
+	}
+	batches = append(batches, "@q")
+	return strings.Join(batches, "/")
+}
+
+func genH(r *hlib.Rand, nCorpora int, emit func(string)) {
+	for ci := 0; ci < nCorpora; ci++ {
+		sim := dSims[ci%len(dSims)]
+		cfg := fmt.Sprintf("v=%d,dir=%s,mg=0,b=%s,k1=%s", 1+ci%2, []string{"mem", "fs"}[(ci/2)%2], fb(sim[0]), fb(sim[1]))
+		must := "zed"
+		corpus := genHCorpus(r, must)
+		bst := func() string { return fb(qBoosts[r.Intn(len(qBoosts))]) }
+		mustT := fmt.Sprintf("T,body,%s,%s", must, bst())
+		// (a) must + 11-16 distinct should term clauses
+		k := r.Range(11, 16)
+		perm := make([]int, len(hVocab))
+		for i := range perm {
+			perm[i] = i
+		}
+		for i := len(perm) - 1; i > 0; i-- {
+			j := r.Intn(i + 1)
+			perm[i], perm[j] = perm[j], perm[i]
+		}
+		sh := make([]string, k)
+		for i := 0; i < k; i++ {
+			sh[i] = fmt.Sprintf("T,body,%s,%s", hVocab[perm[i]], bst())
+		}
+		emit(fmt.Sprintf("dsearch %s %s B,%s,%d,[%s],[%s],[] all", cfg, corpus, bst(), r.Intn(2), mustT, strings.Join(sh, "|")))
+		// (b) a second must beside the should list (conjunction + heap disjunction)
+		emit(fmt.Sprintf("dsearch %s %s B,%s,0,[%s|T,body,%s,%s],[%s],[] all", cfg, corpus, bst(), mustT, hVocab[perm[0]], bst(), strings.Join(sh[1:], "|")))
+		// (c) prefix / wildcard clause expanding to 11+ dictionary terms as a should clause under the must …
+		multi := []string{"P,body,c", "W,body,c*", "W,body,c??", "P,body,ca", "W,body,?a?", "W,body,*"}[r.Intn(6)]
+		emit(fmt.Sprintf("dsearch %s %s B,%s,0,[%s],[%s,%s],[] all", cfg, corpus, bst(), mustT, multi, bst()))
+		// (d) … and as a second must clause (conjunction of the must term and the expansion)
+		emit(fmt.Sprintf("dsearch %s %s B,%s,0,[%s|%s,%s],[T,body,%s,%s],[] %s", cfg, corpus, bst(), mustT, []string{"P,body,c", "W,body,c*"}[r.Intn(2)], bst(), hVocab[perm[1]], bst(), []string{"all", "all", "top"}[r.Intn(3)]))
+	}
+}
